@@ -87,7 +87,7 @@ func (Scenario) Generate(rng *rand.Rand, focus, tier string) kernel.Plan {
 		case "votemode":
 			add("votemode", rng.Int63n(4))
 		case "evidence":
-			add("evidence", rng.Int63n(2))
+			add("evidence", rng.Int63n(8))
 		case "regerc20":
 			add("regerc20", rng.Int63n(5))
 		case "toggle":
@@ -119,6 +119,20 @@ func (Scenario) Generate(rng *rand.Rand, focus, tier string) kernel.Plan {
 		case "stake":
 			add("stake", rng.Int63n(3), rng.Int63n(14), rng.Int63n(5), rng.Int63n(12), rng.Int63n(5), rng.Int63())
 		}
+	}
+	if focus == "C17" && kernel.Chance(rng, 0.4) || kernel.Chance(rng, 0.03) {
+		// late evidence: stake is delegated, starts to unbond, and then the validators turn out to have
+		// double-signed before the unbonding began - the unbonding stake is slashed too (out of the not-bonded pool)
+		u, v := rng.Int63n(3), rng.Int63n(2)
+		add("stake", u, 0, v, 4, 0, rng.Int63())
+		add("block", 8, 0)
+		add("stake", u, 2, v, 2, 0, rng.Int63())
+		add("block", 8, 0)
+		add("block", 2, 0)
+		add("evidence", 4+rng.Int63n(4))
+		add("block", 2, 0)
+		add("evidence", 4+rng.Int63n(4))
+		add("block", 2, 0)
 	}
 	add("block", 8, 0)
 	add("advance", 25)
